@@ -246,8 +246,13 @@ def run_rc_unit(res, rundir, unit, variants, tier, seed, known_preds, scale, tim
                 for fp in crashes:
                     with open(fp) as f:
                         text = f.read()
-                    tail = "\n".join(out.strip().splitlines()[-25:])
-                    res.violations.append((save_replay(res.prop, text, "crash-"), "%s/%s crashed: %s" % (driver, v.name, tail[-600:])))
+                    lines = out.strip().splitlines()
+                    # the most telling lines first: sanitizer verdict / fatal signal reported by the driver, then the tail
+                    key = [l.strip() for l in lines if ("ERROR: AddressSanitizer" in l or "SUMMARY:" in l or "runtime error" in l
+                                                        or "fatal signal" in l or "signal " in l.lower() and "caught" in l.lower())][:3]
+                    kind = [l[7:] for l in text.splitlines() if l.startswith("#crash=")]
+                    tail = " | ".join(([("fatal " + kind[0])] if kind else []) + key + [l.strip() for l in lines[-6:]])
+                    res.violations.append((save_replay(res.prop, text, "crash-"), "%s/%s crashed while running the saved case: %s" % (driver, v.name, tail[:700])))
             if rc != 0 and not fails and not crashes:
                 res.broken.append("%s/%s: exit %d without a failing case\n%s" % (driver, v.name, rc, out[-1500:]))
 
